@@ -50,7 +50,7 @@ def ce(file, impl, rename, reads):
 UNIT = {
     "name": "edges",
     "env": [os.path.join(ENV, "edges_env.rs")],
-    "declared_trusted": {r"external_body": 11},
+    "declared_trusted": {r"external_body": 12},
     "items": [
         {"kind": "enum", "file": TV, "name": "EdgeKind", "prefix": "#[derive(Copy, Clone, PartialEq, Eq, Structural)]"},
         {"kind": "struct", "file": TV, "name": "Edge", "prefix": "#[derive(Copy, Clone)]"},
